@@ -305,6 +305,14 @@ def o4(ctx: Ctx, ties_matter: bool = True):
     sn = f.self_name()
     cand_p, tree_p = f.params()[1], f.params()[2]
     obs = []
+    # a list must not lose elements while a `for` runs over it: after `L.remove(x)` the element that followed x is skipped,
+    # so of two neighbouring losers the second survives the cut
+    fdefs0 = local_defs(f)
+    for lp in [x for x in body_walk(f.node) if isinstance(x, ast.For)]:
+        it_names = {canon(lp.iter)} | ({canon(d_) for d_ in fdefs0.get(lp.iter.id, [])} if isinstance(lp.iter, ast.Name) else set())
+        for c in ast.walk(lp):
+            if isinstance(c, ast.Call) and isinstance(c.func, ast.Attribute) and c.func.attr in ("remove", "pop") and (canon(c.func.value) in it_names or (isinstance(c.func.value, ast.Name) and isinstance(lp.iter, ast.Name) and c.func.value.id == lp.iter.id)):
+                return [ctx.ob("C08.O4", f, c, status=VIOLATION, detail=f"`{norm(c)}` removes from `{norm(lp.iter)}` while the loop iterates over it: the candidate that follows a removed one is never tested, so a candidate that is not better than the pivot survives and more than limit - active candidates remain", construct="mutate-while-iterating")]
     loops = [n for n in f.node.body if isinstance(n, ast.For)]
     if len(loops) != 1 or not isinstance(loops[0].target, ast.Name):
         return [ctx.ob("C08.O4", f, f.node, status=INCONCLUSIVE, detail="expected exactly one top-level loop over levels", construct="level-loop")]
@@ -314,6 +322,25 @@ def o4(ctx: Ctx, ties_matter: bool = True):
     for n in ast.walk(L):
         if isinstance(n, ast.Assign) and len(n.targets) == 1 and isinstance(n.targets[0], ast.Name):
             defs.setdefault(n.targets[0].id, []).append(n.value)
+    # a pivot that outlives its level: initialised before the loop over levels, set only under a level's guard, and compared
+    # with outside that guard - a level that fits is then pruned with the pivot of an EARLIER level
+    pre_names = set()
+    for st0 in f.node.body:
+        if st0 is L:
+            break
+        if isinstance(st0, (ast.Assign, ast.AnnAssign)):
+            for t0 in (st0.targets if isinstance(st0, ast.Assign) else [st0.target]):
+                if isinstance(t0, ast.Name):
+                    pre_names.add(t0.id)
+    for gi in [n for n in L.body if isinstance(n, ast.If)]:
+        set_in_guard = {t0.id for n0 in ast.walk(gi) if isinstance(n0, ast.Assign) for t0 in n0.targets if isinstance(t0, ast.Name)} & pre_names
+        for nm0 in set_in_guard:
+            outside = [c0 for st1 in L.body if st1 is not gi for c0 in ast.walk(st1) if isinstance(c0, ast.Compare) and len(c0.ops) == 1 and isinstance(c0.ops[0], (ast.Gt, ast.GtE, ast.Lt, ast.LtE)) and any(isinstance(x, ast.Name) and x.id == nm0 for x in [c0.left] + c0.comparators)]
+            resets = [n0 for st1 in L.body if st1 is not gi for n0 in ast.walk(st1) if isinstance(n0, ast.Assign) and any(isinstance(t0, ast.Name) and t0.id == nm0 for t0 in n0.targets)]
+            # (for the bound of C08 this is harmless - a stale pivot only removes more; it is C10's "fills exactly the free
+            # slots / no dropped candidate better than a kept one" that breaks, i.e. the caller with ties_matter=False)
+            if outside and not resets and not ties_matter:
+                return [ctx.ob("C08.O4", f, outside[0], status=VIOLATION, detail=f"`{nm0}` is initialised before the loop over levels, set only when a level overflows, and `{norm(outside[0])}` is applied to every later level as well: a level whose candidates all fit is pruned with the pivot of an earlier level, so candidates that fit into free slots are dropped (and better ones than kept ones on other levels)", construct="stale-pivot")]
     guards = [n for n in L.body if isinstance(n, ast.If)]
     if len(guards) != 1:
         return [ctx.ob("C08.O4", f, L, status=INCONCLUSIVE, detail=f"expected one guard per level, found {len(guards)}", construct="guard")]
